@@ -412,6 +412,15 @@ def batch_scenarios(ctx):
 
     def _lpcall(arg):
         return call_loopy(_knl, {"a": arg}, "callee")
+
+    def _named_knl(name, body):
+        return lp.make_kernel("{[i]: 0<=i<4}", f"out[i] = {body}",
+                              [lp.GlobalArg("a", dtype=np.float64, shape=(4,)),
+                               lp.GlobalArg("out", dtype=np.float64, shape=(4,), is_input=False)],
+                              name=name, lang_version=(2018, 2), target=LoopyPyOpenCLTarget().get_loopy_target())
+
+    def _call_of(name, body, arg):
+        return call_loopy(_named_knl(name, body), {"a": arg}, name)["out"]
     jobs, meta = [], []
     x = pt.make_placeholder("x", (4,), np.float64)
     y = pt.make_placeholder("y", (4,), np.float64)
@@ -475,6 +484,14 @@ def batch_scenarios(ctx):
             {"res": _lpcall(x)["out"] + (y + 1).tagged((Named("res"), ImplStored())) * 2}),
         "loopy-call-output-named-like-callee-arg": pt.make_dict_of_named_arrays(
             {"a": _lpcall(x)["out"] * 2, "out": _lpcall(y)["out"] + 1}),
+        # several DIFFERENT callee kernels sharing one name (each must get a name of its own), also next to a user
+        # kernel that already has the name a renaming would pick
+        "three-different-callees-one-name": pt.make_dict_of_named_arrays(
+            {"o": _call_of("f", "2*a[i]", x) + _call_of("f", "3*a[i] + 1", y) + _call_of("f", "a[i] - 5", x * y)}),
+        "four-different-callees-one-name": pt.make_dict_of_named_arrays(
+            {"o": _call_of("g", "2*a[i]", x) + _call_of("g", "3*a[i]", y), "p": _call_of("g", "4*a[i]", y) - _call_of("g", "5*a[i]", x)}),
+        "callee-then-user-kernel-named-like-the-renaming-then-callee": pt.make_dict_of_named_arrays(
+            {"o": _call_of("f", "2*a[i]", x) + _call_of("f_0", "7*a[i]", y) + _call_of("f", "3*a[i] + 1", x + y)}),
         # an argument of the call that is an expression (stored in a temporary of its own) next to other temporaries
         "loopy-call-expression-argument-next-to-stored-temps": pt.make_dict_of_named_arrays(
             {"o": _lpcall(3 * x + 1)["out"] + (y + 1).tagged(ImplStored()) * 2, "p": _lpcall(x * y)["out"]}),
